@@ -40,6 +40,11 @@ def candidates(rng, n):
     cands.append(enum(did, [variant("Lower", ser=["mb"]), variant("Upper", ser=["MB"], aci=1), variant("Other")])); did += 1
     cands.append(enum(did, [variant("Exact", ser=["kb"], aci=0), variant("Any", ser=["Kb"]), variant("Tail", ser=["t"])], aci=True)); did += 1
     cands.append(enum(did, [variant("A", ser=["ab", "Ab"]), variant("B", ser=["AB"], aci=1), variant("C", ser=["aB"], aci=1)])); did += 1
+    for st in ("lowercase", "UPPERCASE", "snake_case", "none"):
+        for eaci in (False, True):
+            cands.append(enum(did, [variant("\u00c5ngstr\u00f6m", aci=2), variant("Cr\u00e8me", aci=1), variant("\u00c9clair", aci=0), variant("Plain")],
+                              style=st, aci=eaci))
+            did += 1
     for k in range(n):
         E = SC.sample_def(rng, did, nmax=5, phf=None, fieldless=(k % 3 == 0))
         cands.append(E)
